@@ -17,6 +17,7 @@ TraceDone == l = Len(RunRec.points) /\ UNCHANGED tvars
 TraceNext == TraceStep \/ TraceDone
 TraceSpec == TraceInit /\ [][TraceNext]_tvars
 
+Pairs2(shape, out) == IF shape \in {"shj_left", "shj_right", "shj_full"} THEN Pairs(out) ELSE out
 BadAt(f) == [n |-> l, p |-> 0, f |-> f, k |-> 0]
 Bad ==
   IF ~RunRec.planned \/ ~Accepted(RunRec.shape)
@@ -24,8 +25,12 @@ Bad ==
   ELSE LET sem == Sem(RunRec.shape, RunRec.feed, Pt.fed)
            lagged == Sem(RunRec.shape, RunRec.feed, LagPrefix(RunRec.feed, Pt.fed)) IN
        (IF Pt.err THEN {BadAt("error")} ELSE {})
-       \cup (IF ~Safe(sem, Pt.out) THEN {BadAt("safety")} ELSE {})
-       \cup (IF ~Live(lagged, Pt.out) THEN {BadAt("liveness")} ELSE {})
+       \cup (IF RunRec.shape \in {"shj_left", "shj_right", "shj_full"}
+               THEN (IF ~OuterSafe(RunRec.shape, Pt.out, sem, Sem(RunRec.shape, RunRec.feed, Len(RunRec.feed)),
+                                   FedTo(RunRec.feed, Len(RunRec.feed), 0, 0), FedTo(RunRec.feed, Len(RunRec.feed), 1, 0))
+                       THEN {BadAt("safety")} ELSE {})
+               ELSE (IF ~Safe(sem, Pt.out) THEN {BadAt("safety")} ELSE {}))
+       \cup (IF ~Live(lagged, Pairs2(RunRec.shape, Pt.out)) THEN {BadAt("liveness")} ELSE {})
        \cup (IF ~EndRule(RunRec.shape, Pt.out, Pt.ended) THEN {BadAt("end")} ELSE {})
 
 Strict == Bad = {}
